@@ -10,7 +10,6 @@ import ChessVerif.Gen.Tables
 import ChessVerif.Gen.RookMagic
 import ChessVerif.Gen.BishopMagic
 import ChessVerif.Gen.Zobrist
-import ChessVerif.Gen.Book
 import ChessVerif.Gen.Consts
 
 namespace Chess.Lookup
@@ -93,9 +92,5 @@ def adjacentRanks (r : Rank) : BB := BB.shiftUp (BB.ofRank r) ||| BB.shiftDown (
 def backrankBB (c : Color) : BB := Gen.Consts.backrankBb.getD c.idx 0#64
 def pawnDoubleMove (c : Color) : BB := Gen.Consts.pawnDoubleMove.getD c.idx 0#64
 def promotionRank (c : Color) : Nat := Gen.Consts.promotionRank.getD c.idx 0
-
-/-- one `u16` of `BOOK` (4096 words per literal) -/
-def bookAt (i : Nat) : Nat :=
-  if i < Gen.Book.bookSize then ((Gen.Book.chunks.getD (i / 4096) 0) >>> (16 * (i % 4096))) % 65536 else 0
 
 end Chess.Lookup
